@@ -20,6 +20,7 @@ import re
 import front_gen as G
 import runner
 import vlib
+from checks import c12
 
 # quirk → class of the known finding the request lies in
 QUIRK_CLASS = {
@@ -365,6 +366,9 @@ class ParseStream(runner.Stream):
         exp_u, exp_r, fam = t[3], t[4], t[5]
         if ans in ("panic", "abort", "hang"):
             return "front end panics"
+        if ans.startswith("comment-differs"):
+            # harness/src/parse.rs parses every text again with comments of every X.680 12.6 form between the items
+            return "the model depends on comments between the items: " + ans[:300]
         if exp_u == "!err":
             if ans.startswith("err "):
                 return None
@@ -423,7 +427,7 @@ def first_diff(exp, got):
 
 class Spec(runner.Spec):
     prop = "C07"
-    streams = [ParseStream()]
+    streams = [ParseStream(), c12.ResolveWitnesses()]
     assumptions = [
         "the theorem is stated on token lists (Front/Printer.printTokens); whitespace/comment layouts of the same tokens are property C13",
         "string literals are rendered as their tokens joined by single blanks (the parser rebuilds them from token columns; other inner layouts belong to C13)",
